@@ -86,8 +86,11 @@ def gen_frame(rng, n_pre=None, cooldown=None, cost_kind=None, spike=False):
       rows.append([f't{g}', d, 2, period[d], v, cost])
     for g in range(n_un):
       rows.append([f'u{g}', d, -1, period[d], rng.uniform(0, 500), rng.uniform(0, 9)])
+  int_values = rng.random() < 0.2
+  if int_values:      # count-like metrics: integer-valued columns with an integer dtype
+    rows = [[r[0], r[1], r[2], r[3], float(round(r[4])), float(round(r[5]))] for r in rows]
   rng.shuffle(rows)
-  return {'rows': rows, 'n_pre': n_pre, 'n_test': n_test, 'n_cool': n_cool, 'cost_kind': cost_kind, 'spike': spike}
+  return {'int_values': int_values, 'rows': rows, 'n_pre': n_pre, 'n_test': n_test, 'n_cool': n_cool, 'cost_kind': cost_kind, 'spike': spike}
 
 
 def to_df(fr, rows=None):
@@ -96,6 +99,9 @@ def to_df(fr, rows=None):
   df = pd.DataFrame({'geo': [r[0] for r in rows], 'date': [d0 + pd.Timedelta(days=int(r[1])) for r in rows],
                      'group': [int(r[2]) for r in rows], 'period': [int(r[3]) for r in rows],
                      'response': [float(r[4]) for r in rows], 'cost': [float(r[5]) for r in rows]})
+  if fr.get('int_values') and all(float(r[4]).is_integer() and float(r[5]).is_integer() for r in rows):
+    df['response'] = df['response'].astype('int64')
+    df['cost'] = df['cost'].astype('int64')
   return df.set_index('geo')
 
 
